@@ -213,6 +213,7 @@ def _run(pid, mod, t, s, a, scratch, t0, cf):
     env = worker_env(guard=True, hashseed=getattr(mod, "HASHSEED", "0"))
     env["VERIF_TIER"] = t
     env["VERIF_SEED"] = str(s)
+    env["VERIF_SCRATCH"] = scratch     # directory shared by all workers of this run (removed afterwards)
     if a.replay:
         out = os.path.join(scratch, "replay.json")
         rc, err = _run_worker([pid, "replay", a.replay, out], env, 3600, scratch)
